@@ -934,6 +934,94 @@ fn doms_alloc() -> Vec<Vec<u64>> {
     vec![range(8), vec![6, 8, 10, 12, 14], range(5), range(4), vec![1, 2], vec![0, 3]]
 }
 
+// C17 clause 1 per input form: `reserve_items(batch in form F)` then pushing the batch in form F never changes a capacity.
+// args: case (region x form), b0 b1 b2 (pool indices), n (batch length 0..3), prefill (0 empty, 1 one item, 2.. filled until tight)
+#[cfg(not(kani))]
+fn form_case<R: Region + Default>(v: &[u64], put: impl Fn(&mut R, usize), reserve: impl Fn(&mut R, &[usize])) {
+    let batch: Vec<usize> = v[1..4].iter().take(v[4] as usize).map(|k| *k as usize).collect();
+    let mut r = R::default();
+    match v[5] {
+        0 => {}
+        1 => put(&mut r, 2),
+        spare => {
+            for _ in 0..80 {
+                put(&mut r, 2);
+                if collect_heap(|cb| r.heap_size(cb)).iter().any(|p| p.1 > 0 && p.1 - p.0.min(p.1) <= (spare - 2) as usize) {
+                    break;
+                }
+            }
+        }
+    }
+    reserve(&mut r, &batch);
+    let before = caps(&r);
+    for k in &batch {
+        put(&mut r, *k);
+        vassert!(caps(&r) == before, "VF:presize.forms.capacity_changed_while_absorbing_announced_items");
+    }
+}
+#[cfg(kani)]
+fn run_presize_forms(_v: &[u64]) {}
+#[cfg(not(kani))]
+fn run_presize_forms(v: &[u64]) {
+    use flatcontainer::PushIter;
+    crate::section("VF:presize.forms");
+    static ARR: [[u8; 3]; 4] = [[0, 0, 0], [1, 1, 1], [2, 3, 4], [255, 0, 9]];
+    static VECS: std::sync::OnceLock<Vec<Vec<u8>>> = std::sync::OnceLock::new();
+    let vecs = VECS.get_or_init(|| BYTES.iter().map(|b| b.to_vec()).collect());
+    static STRINGS: std::sync::OnceLock<Vec<String>> = std::sync::OnceLock::new();
+    let strings = STRINGS.get_or_init(|| (0..4).map(|k| string(k).to_string()).collect());
+    static STRS: [&str; 4] = ["", "a", "é𝄞", "hello world"];
+    static SL_ARR: [&[[u8; 2]]; 4] = [&[], &[[1, 2]], &[[3, 4], [5, 6], [7, 8]], &[[9, 9], [0, 0]]];
+    static SL_VEC: std::sync::OnceLock<Vec<Vec<[u8; 2]>>> = std::sync::OnceLock::new();
+    let sl_vec = SL_VEC.get_or_init(|| SL_ARR.iter().map(|b| b.to_vec()).collect());
+    static AA: [[[u8; 2]; 2]; 4] = [[[0, 0], [0, 0]], [[1, 2], [3, 4]], [[5, 6], [7, 8]], [[9, 9], [9, 9]]];
+    static OPT_ARR: [Option<[u8; 2]>; 4] = [None, Some([1, 2]), None, Some([3, 4])];
+    static RES_ARR: [Result<[u8; 2], [u8; 3]>; 4] = [Ok([1, 2]), Err([3, 4, 5]), Err([0, 0, 0]), Ok([6, 7])];
+    static TUP_OWNED: [(&[u8], &str); 4] = [(&[], ""), (&[1], "é"), (&[2, 3], "ab"), (&[4, 5, 6], "𝄞")];
+    static TUP_REF: std::sync::OnceLock<Vec<([u8; 2], String)>> = std::sync::OnceLock::new();
+    let tup_ref = TUP_REF.get_or_init(|| (0..4u8).map(|k| ([k, k], "x".repeat(k as usize * 3))).collect());
+    match v[0] {
+        0 => form_case::<OwnedRegion<u8>>(v, |r, k| { let _ = r.push(&ARR[k]); }, |r, b| r.reserve_items(b.iter().map(|k| &ARR[*k]))),
+        1 => form_case::<OwnedRegion<u8>>(v, |r, k| { let _ = r.push(BYTES[k]); }, |r, b| r.reserve_items(b.iter().map(|k| BYTES[*k]))),
+        2 => form_case::<OwnedRegion<u8>>(v, |r, k| { let _ = r.push(&vecs[k]); }, |r, b| r.reserve_items(b.iter().map(|k| &vecs[*k]))),
+        3 => form_case::<OwnedRegion<u8>>(v, |r, k| { let _ = r.push(PushIter(BYTES[k].iter().copied())); }, |r, b| r.reserve_items(b.iter().map(|k| PushIter(BYTES[*k].iter().copied())))),
+        4 => form_case::<StringRegion>(v, |r, k| { let _ = r.push(&strings[k]); }, |r, b| r.reserve_items(b.iter().map(|k| &strings[*k]))),
+        5 => form_case::<StringRegion>(v, |r, k| { let _ = r.push(STRS[k]); }, |r, b| r.reserve_items(b.iter().map(|k| STRS[*k]))),
+        6 => form_case::<StringRegion>(v, |r, k| { let _ = r.push(&STRS[k]); }, |r, b| r.reserve_items(b.iter().map(|k| &STRS[*k]))),
+        7 => form_case::<SliceRegion<OwnedRegion<u8>>>(v, |r, k| { let _ = r.push(SL_ARR[k]); }, |r, b| r.reserve_items(b.iter().map(|k| SL_ARR[*k]))),
+        8 => form_case::<SliceRegion<OwnedRegion<u8>>>(v, |r, k| { let _ = r.push(&sl_vec[k]); }, |r, b| r.reserve_items(b.iter().map(|k| &sl_vec[*k]))),
+        9 => form_case::<SliceRegion<OwnedRegion<u8>>>(v, |r, k| { let _ = r.push(&AA[k]); }, |r, b| r.reserve_items(b.iter().map(|k| &AA[*k]))),
+        10 => {
+            // read items of another region of the same type
+            let mut src = <SliceRegion<OwnedRegion<u8>>>::default();
+            let idx: Vec<_> = (0..4).map(|k| src.push(SL_ARR[k])).collect();
+            form_case::<SliceRegion<OwnedRegion<u8>>>(v, |r, k| { let _ = r.push(src.index(idx[k])); }, |r, b| r.reserve_items(b.iter().map(|k| src.index(idx[*k]))))
+        }
+        11 => form_case::<OptionRegion<OwnedRegion<u8>>>(v, |r, k| { let _ = r.push(OPTS[k]); }, |r, b| r.reserve_items(b.iter().map(|k| OPTS[*k]))),
+        12 => form_case::<OptionRegion<OwnedRegion<u8>>>(v, |r, k| { let _ = r.push(&OPT_ARR[k]); }, |r, b| r.reserve_items(b.iter().map(|k| &OPT_ARR[*k]))),
+        13 => form_case::<ResultRegion<OwnedRegion<u8>, OwnedRegion<u8>>>(v, |r, k| { let _ = r.push(RESS[k]); }, |r, b| r.reserve_items(b.iter().map(|k| RESS[*k]))),
+        14 => form_case::<ResultRegion<OwnedRegion<u8>, OwnedRegion<u8>>>(v, |r, k| { let _ = r.push(&RES_ARR[k]); }, |r, b| r.reserve_items(b.iter().map(|k| &RES_ARR[*k]))),
+        15 => form_case::<TupleABRegion<OwnedRegion<u8>, StringRegion>>(v, |r, k| { let _ = r.push(TUP_OWNED[k]); }, |r, b| r.reserve_items(b.iter().map(|k| TUP_OWNED[*k]))),
+        16 => form_case::<TupleABRegion<OwnedRegion<u8>, StringRegion>>(v, |r, k| { let _ = r.push(&tup_ref[k]); }, |r, b| r.reserve_items(b.iter().map(|k| &tup_ref[*k]))),
+        17 => form_case::<Vec<u8>>(v, |r, k| { let _ = <Vec<u8> as Push<u8>>::push(r, k as u8); }, |r, b| r.reserve_items(b.iter())),
+        18 => form_case::<SliceRegion<MirrorRegion<u8>>>(v, |r, k| { let _ = r.push(&ARR[k]); }, |r, b| r.reserve_items(b.iter().map(|k| &ARR[*k]))),
+        // announced by reference, pushed in the owned form (the storage takes the elements over: `PushStorage<&mut Vec<T>>`)
+        19 => form_case::<OwnedRegion<u8>>(v, |r, k| { let _ = r.push(vecs[k].clone()); }, |r, b| r.reserve_items(b.iter().map(|k| &vecs[*k]))),
+        20 => form_case::<OwnedRegion<u8>>(v, |r, k| { let _ = r.push(ARR[k]); }, |r, b| r.reserve_items(b.iter().map(|k| &ARR[*k]))),
+        21 => {
+            let nested: Vec<Vec<Vec<u8>>> = NESTED.iter().map(|x| x.iter().map(|y| y.to_vec()).collect()).collect();
+            form_case::<SliceRegion<OwnedRegion<u8>>>(v, |r, k| { let _ = r.push(nested[k].clone()); }, |r, b| r.reserve_items(b.iter().map(|k| &nested[*k])))
+        }
+        _ => form_case::<StringRegion>(v, |r, k| { let _ = r.push(strings[k].clone()); }, |r, b| r.reserve_items(b.iter().map(|k| &strings[*k]))),
+    }
+}
+fn pre_presize_forms(v: &[u64]) -> bool {
+    v[0] < 23 && v[1] < 4 && v[2] < 4 && v[3] < 4 && v[4] < 4 && v[5] < 5
+}
+fn doms_presize_forms() -> Vec<Vec<u64>> {
+    vec![range(23), range(4), range(4), range(4), range(4), range(5)]
+}
+
 // C17 clause 2 over further input forms and non-coded compositions (the iterator / array / reference-to-reference forms
 // reach the storages through `PushStorage<PushIter<_>>` and friends, not through the slice path).
 #[cfg(not(kani))]
@@ -991,8 +1079,42 @@ fn doms_alloc_forms() -> Vec<Vec<u64>> {
     vec![range(19), vec![6, 8, 10, 12, 14]]
 }
 
+// C18, last clause, on histories large enough for a storage to pass any fixed retention threshold
+fn big_clear<S: Subject>(v: &[u64])
+where
+    S::Index: Copy,
+{
+    crate::section("VF:heap.big_clear");
+    let n = [300usize, 1100, 2100, 4200][v[1] as usize];
+    let mut r = S::default();
+    for i in 0..n {
+        let _ = r.put((v[2] + i as u64 % 2) % S::POOL);
+    }
+    let before = heap(&r);
+    vassert!(before.iter().all(|p| p.0 <= p.1), "VF:heap.big_clear.used_exceeds_capacity");
+    r.clear();
+    let after = heap(&r);
+    vassert!(after.len() == before.len(), "VF:heap.big_clear.pairs_changed");
+    for (b, a) in before.iter().zip(after.iter()) {
+        vassert!(a.1 >= b.1, "VF:heap.big_clear.capacity_shrank_on_clear");
+    }
+}
+fn run_big_clear(v: &[u64]) {
+    dispatch!(big_clear, v)
+}
+fn pre_big_clear(v: &[u64]) -> bool {
+    v[0] < 13 && v[1] < 4 && v[2] < 6
+}
+fn doms_big_clear() -> Vec<Vec<u64>> {
+    vec![range(13), range(4), vec![1, 2, 3]]
+}
+
 pub fn harnesses_alloc() -> Vec<H> {
-    vec![H { name: "alloc_forms", props: &["C17"], nargs: 2, pre: pre_alloc_forms, doms: doms_alloc_forms, run: run_alloc_forms, panic_ok: false,
+    vec![H { name: "heap_big_clear", props: &["C18"], nargs: 3, pre: pre_big_clear, doms: doms_big_clear, run: run_big_clear, panic_ok: false,
+        bound: "13 compositions; 300 / 1100 / 2100 / 4200 pushes alternating two pool values, then clear: same number of (used, capacity) pairs, no capacity smaller than before", kani: false },
+    H { name: "presize_forms", props: &["C17"], nargs: 6, pre: pre_presize_forms, doms: doms_presize_forms, run: run_presize_forms, panic_ok: false,
+        bound: "23 (region, ReserveItems form) pairs (four of them announced by reference and pushed in the owned Vec / array / String form): OwnedRegion (&[T;N], &[T], &Vec<T>, PushIter), StringRegion (&String, &str, &&str), SliceRegion<OwnedRegion> (&[T], &Vec<T>, &[T;N], read items), OptionRegion / ResultRegion / tuple (owned and by reference), Vec<T>, SliceRegion<MirrorRegion>; batch of 0..3 items from a pool of 4; target empty / one item / filled until 0..2 spare bytes; reserve_items(batch) then pushing the batch in the same form: every capacity constant", kani: false },
+    H { name: "alloc_forms", props: &["C17"], nargs: 2, pre: pre_alloc_forms, doms: doms_alloc_forms, run: run_alloc_forms, panic_ok: false,
         bound: "19 (composition, input form) pairs beyond the slice form: OwnedRegion via [T;N], &[T;N], &&[T;N], PushIter, &&[T]; SliceRegion via arrays; StringRegion via &&str; ColumnsRegion (mirror and string columns) via slice / array / PushIter rows; ConsecutiveIndexPairs, CollapseSequence, FlatStack (Vec and IndexOptimized offsets), SliceRegion over consecutive pairs; n = 2^6 .. 2^14 pushes without pre-sizing: at most storages x (log2(elements)+2) allocator calls", kani: false },
     H { name: "alloc_discipline", props: &["C17"], nargs: 6, pre: pre_alloc, doms: doms_alloc, run: run_alloc, panic_ok: false,
         bound: "8 vector-backed structural regions, n = 2^6 .. 2^14 items from a 3-value repeating pattern over static inputs, counting global allocator: without pre-sizing at most storages x (log2(elements)+2) allocator calls; after reserve_items (empty or populated target) / reserve_regions / merge_regions of up to 64 announced items, zero allocator calls while pushing them", kani: false }]
